@@ -472,6 +472,10 @@ def drive(ctx):
         merge(agg, out)
     # tosympy on every state of level <= 2 (+ a cap of level 3), == on all pairs of level <= 2 states
     sy = l12 + levels[3][:(300 if tier == 'quick' else 4000)]
+    # variables whose names mean something to sympy's parser (imaginary unit, Euler's number, pi, singletons, functions): a variable
+    # is a symbol whatever it is called
+    for nme in ('I', 'E', 'pi', 'S', 'N', 'O', 'Q', 'oo', 'zoo', 'nan', 'beta', 'gamma', 'zeta', 're', 'im', 'x_1', 'e12'):
+        sy += [('P', ((1, nme, nme), (1,))), ('P', ((2, 'a', nme), (3,))), ('RP', ('P', ((1, nme),)), ('P', ((1,), (1, nme, 'x'))))]
     for out in ctx.map('sympy_check', chunks(sy, 32)):
         agg['extra']['tosympy_checked'] = agg['extra'].get('tosympy_checked', 0) + out['evals']
         out['evals'] = 0
